@@ -31,7 +31,7 @@ LEVEL = "exploration"
 TECHNIQUE = "property-based statistical testing: Hypothesis draws thermodynamic parameters/proposals/seeds, long chains through the real drivers are compared with closed-form statistical mechanics (batch-means z-tests with effect-size floor, KS / chi-square at fixed alpha)"
 RULE = (
     "case = (scenario out of 16 scenario x proposal kinds, seed, temperature / spring constant / field / pressure / chemical potential / particle number / proposal size drawn by Hypothesis, chain length). "
-    "Non-trivial = acceptance rate within (0.05, 0.95) and effective sample size >= 500 (batch means); a chain with ESS < 200 is reported inconclusive. "
+    "Non-trivial = acceptance rate within (0.05, 0.95) and effective sample size >= 500 (batch means); a chain with ESS < 50 is reported inconclusive (the z-test itself stays valid for poorly mixing chains because the batch-means standard error grows with the autocorrelation). "
     "distinct = (scenario, N, rounded parameters, seed)."
 )
 ASSUMPTIONS = [
@@ -49,7 +49,7 @@ DESIGN_REF = "DESIGN.md section 3, C01"
 
 AMU = sc.physical_constants["atomic mass constant"][0]
 SCENARIOS = [
-    "harm:Ball", "harm:Box", "harm:Sphere", "harm:CompOp", "harm:mul2", "harm:add", "harm:HMC", "dipole:Rotation", "dipole:TransRot",
+    "harm:Ball", "harm:Box", "harm:Sphere", "harm:CompOp", "harm:mulN", "harm:add", "harm:HMC", "dipole:Rotation", "dipole:TransRot",
     "npt:cell", "npt:cell+disp", "gc:atomic:cubic", "gc:atomic:tri+disp", "gc:diatomic:cubic", "gc:diatomic:tri", "harm:HMC2",
 ]
 
@@ -65,14 +65,16 @@ def case_st(draw, scenario, steps):
     kind = scenario.split(":")[0]
     c["T"] = draw(fl(50, 2000))
     if kind == "harm":
-        c["N"] = draw(st.integers(1, 4))
+        # composite proposals need at least two particles to displace more than one label per trial
+        kind2 = scenario.split(":")[1]
+        c["N"] = draw(st.integers(4, 8)) if kind2 == "mulN" else draw(st.integers(2, 4)) if kind2 == "add" else draw(st.integers(1, 4))
         c["k"] = draw(log10_floats(-1, 1.3))
-        c["size"] = draw(fl(0.5, 3.0))  # in thermal widths sqrt(kT/k)
+        c["size"] = draw(fl(1.2, 3.0)) if kind2 == "mulN" else draw(fl(0.5, 3.0))  # in thermal widths sqrt(kT/k)
         # dt * omega_max (velocity Verlet is stable below 2); the second Hamiltonian scenario uses large steps so
         # that rejected trajectories - and whatever they leave behind - are frequent
         c["dtw"] = draw(fl(0.9, 1.5)) if scenario.endswith("HMC2") else draw(fl(0.5, 1.7))
         c["nsteps"] = draw(st.integers(3, 15))
-        c["masses"] = [draw(fl(1, 100)) for _ in range(4)]
+        c["masses"] = [draw(fl(1, 100)) for _ in range(8)]
     elif kind == "dipole":
         c["x"] = draw(fl(0.3, 5.0))
         c["d"] = draw(fl(0.8, 1.6))
@@ -166,22 +168,33 @@ def run_harm(c, out):
                 mv = DisplacementMove(labels, Sphere(s))
             elif prop == "CompOp":
                 mv = DisplacementMove(labels, Ball(s) + Box(0.5 * s))
-            elif prop == "mul2":
-                mv = DisplacementMove(labels, Ball(s)) * 2
+            elif prop == "mulN":
+                # one composite trial displaces every particle once (n = N sub-moves of the same move object)
+                mv = DisplacementMove(labels, Ball(s)) * N
             else:
                 mv = DisplacementMove(labels, Ball(s)) + DisplacementMove(labels, Box(0.7 * s))
             mc.add_move(mv, criteria=CanonicalCriteria(), name="d")
         e = np.empty(c["steps"])
         acc = 0
+        from vlib.calcs import model_energy_forces
+
         for i, _ in enumerate(mc.srun(c["steps"])):
             e[i] = mc.context.last_potential_energy
             acc += 1 if mc.move_history and mc.move_history[-1][1] else 0
+            if i % 50 == 0:
+                # the sampled observable must be the energy of the configuration the chain is actually in
+                true_e = model_energy_forces("harmonic", atoms.positions, None, None, {"k": k, "center": (5.0, 5.0, 5.0)})[0]
+                if abs(true_e - e[i]) > 1e-9 * max(1.0, abs(true_e)):
+                    out["violation"] = {"kind": "carried-energy-not-of-configuration:" + prop,
+                                        "detail": f"{c['scenario']} N={N} seed={c['seed']}: after step {i} the simulation carries E={e[i]!r} but the positions have E={true_e!r}"}
+                    out["acc"], out["ess"] = 0.5, 0.0
+                    return
     burn = c["steps"] // 10
     x = e[burn:] / kT
     desc = f"{c['scenario']} N={N} T={T:.4g} k={k:.4g} step={c['size']:.3g} thermal widths seed={c['seed']}"
     mean, se, z, ess = batch_z(x, 1.5 * N)
     out["acc"], out["ess"] = acc / c["steps"], ess
-    if ess < 200:
+    if ess < 50:
         return
     if verdict(out, "harmonic-mean-energy:" + prop, "<E>/kT", mean, se, z, 1.5 * N, floor_rel=0.02, desc=desc):
         return
@@ -224,7 +237,7 @@ def run_dipole(c, out):
     expected = 1.0 / math.tanh(x) - 1.0 / x
     mean, se, z, ess = batch_z(cs[burn:], expected)
     out["acc"], out["ess"] = acc / c["steps"], ess
-    if ess < 200:
+    if ess < 50:
         return
     verdict(out, "dipole-orientation:" + prop, "<cos theta>", mean, se, z, expected, floor_abs=0.02, desc=desc)
 
@@ -261,7 +274,7 @@ def run_npt(c, out):
     v = V[burn:] * P / kT  # should be Gamma(N+1, 1)
     mean, se, z, ess = batch_z(v, N + 1.0)
     out["acc"], out["ess"] = acc / max(tot, 1), ess
-    if ess < 200:
+    if ess < 50:
         return
     if verdict(out, "isobaric-mean-volume", "<V>P/kT", mean, se, z, N + 1.0, floor_rel=0.02, desc=desc):
         return
@@ -343,7 +356,7 @@ def run_gc(c, out):
     mean, se, z, ess = batch_z(x, lam)
     out["ess"] = ess
     out["acc"] = acc_x / max(tot_x, 1)
-    if ess < 200:
+    if ess < 50:
         return
     if verdict(out, "gc-mean-number:" + species, "<N>", mean, se, z, lam, floor_rel=0.02, desc=desc):
         return
@@ -398,7 +411,7 @@ def run_case(c):
         out["violation"] = {"kind": f"raises:{kind}:{type(exc).__name__}", "detail": f"{c['scenario']}: {exc!r}"[:400]}
         return out
     ess, acc = out.get("ess", 0), out.get("acc", 0.5)
-    if ess < 200 and out["violation"] is None:
+    if ess < 50 and out["violation"] is None:
         out["inconclusive"] = True
         out["labels"].append("inconclusive")
     out["nontrivial"] = bool(out["violation"]) or (ess >= 500 and 0.05 < acc < (0.995 if "HMC" in c["scenario"] else 0.95))
